@@ -18,10 +18,16 @@ import (
 // layout of the token, the time window, the Reset discipline. Cryptographic strength is outside the claim, as is
 // "tokens differ for different connection IDs and keys" (collision resistance of HMAC-SHA256).
 //
-// Sensitivity (sh mut.sh ... C31): see the list at the end of this comment block, kept up to date by the author.
-//   retry.go additionalData: drop `additional = binary.BigEndian.AppendUint16(additional, addr.Port())`   CAUGHT
-//   retry.go validateToken:  `abs(now.Sub(when))` -> `now.Sub(when)`                                        CAUGHT
-//   stateless_reset.go:      drop `defer g.mac.Reset()`                                                     CAUGHT
+// Sensitivity (sh mut.sh quic/<file> '<old>' '<new>' C31), all CAUGHT:
+//   retry.go additionalData: `AppendUint16(additional, addr.Port())` -> `AppendUint16(additional, 0)`      VerifC31_ad + VerifC31_issue_validate
+//   retry.go validateToken:  `abs(now.Sub(when))` -> `now.Sub(when)`                                        VerifC31_issue_validate
+//   stateless_reset.go:      `defer g.mac.Reset()` -> no-op                                                 VerifC31_reset_token
+//   retry.go parseRetryPacket: pseudo-packet built with an empty original DCID                              VerifC31_retry_packet
+//
+// Engine caveat: the harness that first needs package time (VerifC31_issue_validate) must run before the one that
+// turns *c31mac into a hash.Hash (VerifC31_reset_token): x/tools go/ssa canonicalises signatures ignoring receivers,
+// and the instance time.atoi[[]byte] otherwise inherits the signature object of (*c31mac).Write (SanityCheck
+// failure). Harnesses run in name order, hence the names.
 
 func init() {
 	vfRegister("VerifC31_issue_validate", VerifC31_issue_validate)
